@@ -375,14 +375,18 @@ class CallGraphQuery:
         """
         Returns SQLAlchemy filter term for finding Jobs with status `status`.
         """
+        # Note: these terms must mirror Job.calc_status(): a failed job is FAILED whether or not
+        # it was cached (e.g. a failure obtained by CSE), and an unfinished job is RUNNING.
+        failed = sa.and_(Value.type.isnot(None), Value.type == REDUN_ERROR_TYPE_NAME)
+        not_failed = sa.or_(Value.type.is_(None), Value.type != REDUN_ERROR_TYPE_NAME)
         if status == "RUNNING":
-            return Job.end_time.is_(None) & Job.call_hash.is_(None)
+            return not_failed & Job.end_time.is_(None)
         elif status == "CACHED":
-            return Job.cached.is_(True)
+            return not_failed & Job.end_time.isnot(None) & Job.cached.is_(True)
         elif status == "FAILED":
-            return Value.type == REDUN_ERROR_TYPE_NAME
+            return failed
         elif status == "DONE":
-            return Job.cached.is_(False) & (Value.type != REDUN_ERROR_TYPE_NAME)
+            return not_failed & Job.end_time.isnot(None) & Job.cached.is_(False)
         else:
             raise NotImplementedError(status)
 
